@@ -450,10 +450,14 @@ def expansion_scenarios(run: Run, model: PyModel) -> None:
             full = q
             for name, cl in refs:
                 full = full.replace("{" + name + "}", f"({cl})")
-            ok = isinstance(v, str) and (v in accept or ("{" not in v and _canon(v[2:]) is not None and _canon(v[2:]) == _canon(full[2:])))
+            # the query language separates words by single blanks only (SPACE in ZorgQuery.g4): a line break spliced in with a clause ends the query there
+            one_line = isinstance(v, str) and not (set(v) & set("\n\r\x0b\x0c\u2028\u2029"))
+            ok = one_line and (v in accept or ("{" not in v and _canon(v[2:]) is not None and _canon(v[2:]) == _canon(full[2:])))
             why = ""
             if isinstance(v, str) and not ok:
-                if "{" in v:
+                if not one_line:
+                    why = "a line break of the saved page is spliced into the query (the first line's terminator, or later lines of the page): the query language knows no line breaks, so everything after it is lost or the query is rejected"
+                elif "{" in v:
                     why = "a reference is left unexpanded"
                 elif any(_top_level_pipe(cl) and f"({cl})" not in v for _, cl in refs):
                     why = "a clause containing alternatives is spliced in without parentheses: AND binds tighter than OR, so the surrounding atoms only constrain the first / last alternative"
